@@ -7,7 +7,7 @@
    (Gen/C19.v). Section hashes (xxhash) are arbitrary data of the statements. *)
 From Coq Require Import ZArith List Bool Arith.
 Import ListNotations.
-From Verif Require Import Lib.Corr Lib.Hashring_Ketama Lib.Hashring_KetamaFacts Gen.C19 Model.C19 Proofs.C19.
+From Verif Require Import Lib.Corr Lib.Hashring_Ketama Lib.Hashring_KetamaFacts Gen.C19 Model.C19 Proofs.C19 Proofs.C19_Balanced.
 Close Scope Z_scope.
 
 (* Termination of the replica walk for EVERY ring (any order of sections, any
@@ -74,6 +74,19 @@ Theorem C19_single_zone_always_builds : forall eps rf,
   exists ring reps, ketama_new_src eps rf = KOk ring reps.
 Proof. exact src_single_zone. Qed.
 Print Assumptions C19_single_zone_always_builds.
+
+(* With several zones: if every zone can hold its share of the replicas
+   (rf <= zones * |zone|, i.e. |zone| >= ceil(rf / zones), for every zone), every
+   endpoint owns a section and rf <= #endpoints, the constructor yields a ring —
+   whatever the section hashes are. The layouts on which the walk gets stuck are
+   therefore exactly among those where some zone is too small for its share. *)
+Theorem C19_balanced_zones_always_build : forall eps rf,
+  Forall (fun e => snd e <> []) eps -> rf <= length eps ->
+  (Z.of_nat rf <= MaxInt64)%Z ->
+  (forall a, In a (az_set [] eps) -> rf <= length (az_set [] eps) * length (zone_members eps a)) ->
+  exists ring reps, ketama_new_src eps rf = KOk ring reps.
+Proof. exact src_balanced_zones. Qed.
+Print Assumptions C19_balanced_zones_always_build.
 
 (* Non-vacuity: a two-zone layout 2+2 with three sections per node and rf = 3
    builds a ring (corpus/C19/balanced-2x2-rf3.json); the hypotheses of the
